@@ -299,10 +299,27 @@ trait Backend {
     }
     fn observe(&self) -> BTreeMap<Key, String>;
     fn abs(&self, key: Key) -> Abs;
+    /// an independent copy of the current state (to deliver the items of a snapshot one by one)
+    fn twin(&self) -> Box<dyn Backend>;
 }
 
+/// the failure a cancel response reports: the lifecycle treats every failure alike (the cancel did not
+/// happen: restore the last confirmed open state), so the kind rotates with every failed response
+fn cancel_failure<A, I>(n: u32) -> OrderError<A, I> {
+    use barter_execution::error::ApiError;
+    match n % 5 {
+        0 => OrderError::Connectivity(ConnectivityError::Timeout),
+        1 => OrderError::Rejected(ApiError::OrderAlreadyCancelled),
+        2 => OrderError::Rejected(ApiError::OrderAlreadyFullyFilled),
+        3 => OrderError::Rejected(ApiError::RateLimit),
+        _ => OrderError::Rejected(ApiError::OrderRejected("scripted".into())),
+    }
+}
+
+#[derive(Clone)]
 struct UnitBackend {
     orders: Orders<ExchangeId, u64>,
+    failures: u32,
 }
 
 fn unit_key(c: usize) -> OrderKey<ExchangeId, u64> {
@@ -353,10 +370,10 @@ impl Backend for UnitBackend {
                 key,
                 state: Ok(Cancelled { id: OrderId::new("oid1"), time_exchange: t(*tt) }),
             }),
-            In::RespErr => self.orders.update_from_cancel_response::<u64>(&OrderResponseCancel {
-                key,
-                state: Err(OrderError::Connectivity(ConnectivityError::Timeout)),
-            }),
+            In::RespErr => {
+                self.failures += 1;
+                self.orders.update_from_cancel_response::<u64>(&OrderResponseCancel { key, state: Err(cancel_failure(self.failures)) })
+            }
             snap => {
                 let state: OrderState<u64, u64> = snap_state(snap).expect("snapshot input");
                 let order = mk_order(key, state);
@@ -371,14 +388,20 @@ impl Backend for UnitBackend {
             .map(|(cid, o)| ((0usize, cid.0.trim_start_matches("cid").parse().unwrap()), format!("{o:?}")))
             .collect()
     }
+    fn twin(&self) -> Box<dyn Backend> {
+        Box::new(self.clone())
+    }
+
     fn abs(&self, (_i, c): Key) -> Abs {
         Abs::of(self.orders.0.get(&cid_of(c)).map(|o| &o.state))
     }
 }
 
+#[derive(Clone)]
 struct EngineBackend {
     state: fixtures::DefState,
     exch_of_instr: Vec<usize>,
+    failures: u32,
 }
 
 impl EngineBackend {
@@ -395,7 +418,7 @@ impl EngineBackend {
         let state = EngineState::builder(&instruments, Default::default(), Default::default)
             .time_engine_start(fixtures::t0())
             .build();
-        Self { state, exch_of_instr }
+        Self { state, exch_of_instr, failures: 0 }
     }
     fn key(&self, (i, c): Key) -> OrderKey {
         OrderKey {
@@ -433,11 +456,12 @@ impl Backend for EngineBackend {
                 });
             }
             In::RespErr => {
+                self.failures += 1;
                 let _ = self.state.update_from_account(&AccountEvent {
                     exchange,
                     kind: AccountEventKind::OrderCancelled(OrderResponseCancel {
                         key,
-                        state: Err(OrderError::Connectivity(ConnectivityError::Timeout)),
+                        state: Err(cancel_failure(self.failures)),
                     }),
                 });
             }
@@ -483,6 +507,10 @@ impl Backend for EngineBackend {
         }
         out
     }
+    fn twin(&self) -> Box<dyn Backend> {
+        Box::new(self.clone())
+    }
+
     fn abs(&self, (i, c): Key) -> Abs {
         Abs::of(self.state.instruments.instrument_index(&InstrumentIndex(i)).orders.0.get(&cid_of(c)).map(|o| &o.state))
     }
@@ -510,7 +538,52 @@ struct RunStats {
 fn run_history(backend: &mut dyn Backend, history: &[Step], stats: &mut RunStats) -> Result<(), (&'static str, String, usize)> {
     let mut delivered: BTreeMap<Key, HashSet<D>> = BTreeMap::new();
     let mut last_fill_race: BTreeMap<Key, bool> = BTreeMap::new();
+    run_steps(backend, history, stats, &mut delivered, &mut last_fill_race)
+}
+
+fn run_steps(backend: &mut dyn Backend, history: &[Step], stats: &mut RunStats, delivered_in: &mut BTreeMap<Key, HashSet<D>>, last_fill_race_in: &mut BTreeMap<Key, bool>) -> Result<(), (&'static str, String, usize)> {
+    let mut delivered = std::mem::take(delivered_in);
+    let mut last_fill_race = std::mem::take(last_fill_race_in);
+    let res = run_steps_inner(backend, history, stats, &mut delivered, &mut last_fill_race);
+    *delivered_in = delivered;
+    *last_fill_race_in = last_fill_race;
+    res
+}
+
+fn run_steps_inner(backend: &mut dyn Backend, history: &[Step], stats: &mut RunStats, delivered: &mut BTreeMap<Key, HashSet<D>>, last_fill_race: &mut BTreeMap<Key, bool>) -> Result<(), (&'static str, String, usize)> {
     for (idx, step) in history.iter().enumerate() {
+        // A full account snapshot is judged in two parts: (1) its reports, delivered one by one in the listed
+        // order to an independent copy of the state, follow the lifecycle item by item (the copy is judged like
+        // any other step sequence, so one order may be listed more than once - e.g. Open, then FullyFilled);
+        // (2) the snapshot as a whole leaves exactly the state the one-by-one delivery leaves.
+        if let Step::Full(v) = step {
+            let mut twin = backend.twin();
+            let singles: Vec<Step> = v.iter().map(|(k, i)| Step::One(*k, *i)).collect();
+            let mut twin_delivered: BTreeMap<Key, HashSet<D>> = delivered.clone();
+            run_steps(twin.as_mut(), &singles, stats, &mut twin_delivered, last_fill_race).map_err(|(sig, detail, _)| (sig, format!("full snapshot {v:?}, delivered item by item: {detail}"), idx))?;
+            let before = backend.observe();
+            if let Err(msg) = catch(|| {
+                backend.apply_full_snapshot(v);
+            }) {
+                return Err(("panic_in_order_manager", format!("panic: {msg}"), idx));
+            }
+            stats.steps += 1;
+            stats.checks += 1;
+            let (got, want) = (backend.observe(), twin.observe());
+            if got != want {
+                let diff: Vec<_> = got.keys().chain(want.keys()).collect::<std::collections::BTreeSet<_>>().into_iter().filter(|k| got.get(*k) != want.get(*k)).map(|k| format!("{k:?}: snapshot -> {:?}, item by item -> {:?}", got.get(k), want.get(k))).collect();
+                return Err(("account_snapshot_differs_from_item_by_item_delivery", format!("full snapshot {v:?} (state before: {before:?}): {}", diff.join("; ")), idx));
+            }
+            *delivered = twin_delivered;
+            if v.len() > 1 {
+                stats.scenarios.push("full_account_snapshot_multi_order");
+            }
+            let mut seen_keys = HashSet::new();
+            if v.iter().any(|(k, _)| !seen_keys.insert(*k)) {
+                stats.scenarios.push("full_account_snapshot_lists_an_order_twice");
+            }
+            continue;
+        }
         let items: Vec<(Key, In)> = match step {
             Step::One(k, i) => vec![(*k, *i)],
             Step::Full(v) => v.clone(),
@@ -584,7 +657,7 @@ fn run_history(backend: &mut dyn Backend, history: &[Step], stats: &mut RunStats
 }
 
 fn fresh_backend(engine: bool) -> Box<dyn Backend> {
-    if engine { Box::new(EngineBackend::new()) } else { Box::new(UnitBackend { orders: Orders::default() }) }
+    if engine { Box::new(EngineBackend::new()) } else { Box::new(UnitBackend { orders: Orders::default(), failures: 0 }) }
 }
 
 fn execute(engine: bool, history: &[Step], report: &mut Report, label: &str) {
@@ -715,12 +788,13 @@ fn random_history(rng: &mut Rng, engine: bool) -> Vec<Step> {
             // exchanges sort as BinanceSpot(0) < Okx(1); instrument -> exchange taken from backend below.
             let parity = rng.usize_below(2);
             let mut items: Vec<(Key, In)> = Vec::new();
-            let k = rng.range_u(1, 3);
+            let k = rng.range_u(1, 4);
             for _ in 0..k {
                 // instruments are sorted by (exchange, name): first three belong to exchange 0
                 let instr = parity * 3 + rng.usize_below(3);
                 let key = (instr, rng.usize_below(n_cids));
-                if items.iter().any(|(kk, _)| *kk == key) {
+                // mostly distinct orders; sometimes the snapshot lists one order twice
+                if items.iter().any(|(kk, _)| *kk == key) && rng.chance(2, 3) {
                     continue;
                 }
                 let input = loop {
@@ -800,6 +874,7 @@ fn main() {
             "failed_cancel_restores_open",
             "two_cids_interleaved",
             "full_account_snapshot_multi_order",
+            "full_account_snapshot_lists_an_order_twice",
         ] {
             report.require(&format!("scenario:{s}"));
         }
